@@ -90,6 +90,13 @@ package scope
 //@   ensures addErr != nil ==> as(result, "*Scope").parent == nil
 //@   ensures params.ContextScope == nil ==> as(result, "*Scope").ContextScope == bcs
 //@   ensures params.ContextScope != nil ==> as(result, "*Scope").ContextScope == params.ContextScope
+// the child's default event and data scopes hang on the parent's *base* objects, which outlive the
+// parent's Close (the parent Scope's own fields are cleared when it closes): a child created late
+// and closed after its parent still fires its events
+//@   trace BaseEventScope as BES bind bes
+//@   trace BaseDataScope as BDS bind bds
+//@   at_call eventscope.NewChild requires $0 == bes
+//@   at_call datascope.NewChild requires $0 == bds
 
 // a root scope without an explicit context gets a fresh one
 //@ func New [C11 C16]
